@@ -38,6 +38,7 @@ struct Dec {
   std::vector<alignment_t *> retainedAlignments;
   bool cfgGrammar = false; // the configuration itself names a grammar: every reinitialisation loads it again
   bool hostile = false; // dictionary with hostile spellings loaded
+  bool weakAcoustics = false; // the derived semi-continuous layout: structurally valid, acoustically meaningless
   bool french = false; // reinitialised with the French model: the English grammar / word menus do not apply
   bool broken = false; // a reinit failed: only another reinit or free is meaningful
 };
@@ -78,11 +79,19 @@ const int NKEYS = sizeof(KEYS) / sizeof(KEYS[0]);
 
 // a configuration meant for decoder_init / decoder_reinit; *valid says whether initialisation must succeed
 bool gInitHasGrammar = false;
+int gInitLayout = 0;
 config_t *genInitConfig(Choices &c, std::ostringstream &h, bool *valid, bool *french) {
   config_t *cfg = config_init(NULL);
   *valid = true;
-  size_t hm = c.weighted({6, 2, 1, 1});
+  uint32_t hmRaw = c.raw(); // weights 6,2,1,1 as before; the quotient selects a derived layout of en-us (DESIGN.md 9.9)
+  size_t hm = hmRaw % 10 < 6 ? 0 : hmRaw % 10 < 8 ? 1 : hmRaw % 10 == 8 ? 2 : 3;
+  int layout = hm == 0 ? (int)((hmRaw / 10) % 8) : 0; // 5: float mixture weights, 6: general scorer, 7: semi-continuous
   std::string hmm = hm == 0 ? audio::repoDir() + "/model/en-us" : hm == 1 ? audio::repoDir() + "/model/fr-fr" : hm == 2 ? "/nonexistent/model" : audio::repoDir() + "/model";
+  gInitLayout = layout;
+  if (layout == 5 || layout == 6) hmm = derivedModelsDir() + "/mixw";
+  if (layout == 7) hmm = derivedModelsDir() + "/semi";
+  if (layout == 6) config_set_str(cfg, "senmgau", ".ptm.");
+  if (layout >= 5) h << "{layout=" << (layout == 5 ? "float-weights" : layout == 6 ? "general-scorer" : "semi-continuous") << "}";
   if (hm >= 2) *valid = false;
   *french = hm == 1;
   config_set_str(cfg, "hmm", hmm.c_str());
@@ -621,6 +630,8 @@ Verdict propC09(Choices &c, Ctx &ctx) {
       x.utt = Dec::IDLE;
       x.french = rc >= 0 && french;
       x.hostile = false;
+      if (rc >= 0) x.weakAcoustics = gInitLayout == 7;
+      if (rc >= 0 && gInitLayout >= 5) ctx.label("reinit:derived-model-layout");
       break;
     }
     case 22: {
@@ -688,6 +699,7 @@ Verdict propC09(Choices &c, Ctx &ctx) {
       x.hasGrammar = false;
       x.broken = false;
       x.french = false;
+      x.weakAcoustics = false;
       x.cfgGrammar = false;
       x.utt = Dec::IDLE;
       break;
@@ -721,7 +733,8 @@ Verdict propC09(Choices &c, Ctx &ctx) {
     int r3 = decoder_process_int16(x.d, b.data() + 8000, b.size() - 8000, 0, 0);
     int r4 = decoder_end_utt(x.d);
     const char *hy = decoder_hyp(x.d, NULL);
-    bool hypOk = hy && std::string(hy) == "go forward ten meters";
+    // (with the acoustically meaningless layout only the return codes are judged)
+    bool hypOk = x.weakAcoustics || (hy && std::string(hy) == "go forward ten meters");
     if (r1 != 0 || r2 < 0 || r3 < 0 || r4 != 0 || !hypOk)
       res = fail("decoder-unusable-after-history", Msg() << "follow-up utterance: start=" << r1 << " process=" << r2 << "," << r3 << " end=" << r4 << " hyp=" << (hy ? hy : "NULL"), h.str());
   }
